@@ -356,7 +356,14 @@ def run_loopback_case(case) -> Result:
 
 def run_case(case) -> Result:
     if case.get("tier") == "loopback":
-        return run_loopback_case(case)
+        # real time is not a correctness signal: a failure must persist with four- and sixteen-fold timeouts (a loaded
+        # machine delays the scripted responder) before it is reported
+        res = run_loopback_case(case)
+        for factor in (4, 16):
+            if res.violation is None:
+                break
+            res = run_loopback_case(dict(case, timeout=case["timeout"] * factor))
+        return res
     return run_virtual_case(case)
 
 
